@@ -568,16 +568,17 @@ theorem c06_src_own_reply (s : Proto) (name : String) (args : Vals) (kwargs : Kw
 
 /-- **the own reply is returned** (source level): no frame before it decodes with the call's sequence number; then the frame that
 decodes with the sequence number placed in the request and the command's frame ID completes the call with exactly its decoded
-payload - whatever follows it in the same wait, whatever would have ended the wait -/
+payload - whatever follows it in the same wait, whatever would have ended the wait (`hpr`: EZSP holds this handler, so received
+frames reach it) -/
 theorem c06_src_reply_returned (s : Proto) (name : String) (args : Vals) (kwargs : KwVals) (c : Cmd) (data : List UInt8)
     (f1 pre post : List (List UInt8)) (d : List UInt8) (fin : WaitEnd) (rest : List CResp) (nm : String) (v : Vals) (tr : List UInt8)
     (hw : WF s) (hs : s.script = .acquire true :: .send f1 none :: .wait (pre ++ d :: post) fin :: rest)
     (hc : findByName s.cmds name = some c)
     (hfr : (ezsp_frame name args kwargs (entered s name (.send f1 none :: .wait (pre ++ d :: post) fin :: rest))).1 = .ok data)
     (hno : ∀ x ∈ f1 ++ pre, ∀ id nm v tr, rxFrame s.version s.cmds x ≠ .ok s.seq id nm v tr)
-    (hd : rxFrame s.version s.cmds d = .ok s.seq c.id nm v tr) (hnm : nm ≠ "invalidCommand") :
+    (hd : rxFrame s.version s.cmds d = .ok s.seq c.id nm v tr) (hnm : nm ≠ "invalidCommand") (hpr : s.protocol = some ()) :
     (command name args kwargs s).1 = .ok v :=
-  command_reply s name args kwargs c data f1 pre post d fin rest nm v tr hw hs hc hfr hno hd hnm
+  command_reply s name args kwargs c data f1 pre post d fin rest nm v tr hw hs hc hfr hno hd hnm hpr
 
 /-- **the timeout** (source level): no frame with the call's sequence number while it is suspended ⇒ `TimeoutError` at the
 deadline (`CancelledError` when the caller is cancelled), and the call's future is dead afterwards -/
